@@ -13,6 +13,8 @@
 -/
 import Wbxml.Lemmas.X2WMain
 import Wbxml.Lemmas.X2WFuel
+import Wbxml.Lemmas.X2WOut
+import Wbxml.Lemmas.X2WDepth
 import Wbxml.Gen.Tables
 set_option maxRecDepth 100000
 namespace Wbxml.Props.C02
@@ -327,5 +329,367 @@ theorem cycEnv_not_ranked : ¬ ∃ rank, Ranked Gen.main cycEnv rank := by
 example : Ranked Gen.main [] (fun _ => 0) := by
   intro f d k xr h
   cases h
+
+/-! ## Size and depth bounds
+
+"The document after entity expansion" is, in the model, the list of events Expat reported (Expat is a
+parameter; entity expansion is its work). `evSize` counts one unit per event and per attribute plus
+all octets of element names, attribute names, attribute values and character data. A conversion
+also re-parses every embedded DevInf / DM-DDF document from its own run; `expSize` / `expDocs` /
+`expStarts` sum events / documents / start-element events over that recursion exactly as
+`treeOfXml` performs it (for a document that embeds nothing: `expSize = evSize events`,
+`expDocs = 1`, see `x2w_bounded_plain`).
+
+`Tree.size` counts one unit per `WBXMLTree`, per node and per attribute, plus all octets of names
+(literal buffers and the table names of tokens), attribute values and text. -/
+
+/-- **The tree is linear in the events** — every table, every environment, every fuel, every run
+    (no hypothesis: not even well-formedness of the events). Per event at most twice its size:
+    a character-data event may add a CDATA node and a text node, a lone LF becomes CR LF. -/
+theorem x2w_tree_size_le (main : List Lang) (env : List (Bytes × ExpatRun)) (f : Nat) (xml : Bytes) (t : Tree)
+    (h : treeOfXml main env f xml = .ok t) :
+    t.size ≤ 2 * expSize main env f xml + expDocs main env f xml := by
+  have := treeOfXml_sizeW main env (fun _ => 0) 1 (fun _ _ _ _ => Nat.le_refl _) f xml t h
+  simpa [Tree.size] using this
+
+/-- … in terms of the events alone (every embedded document is closed by an end-element event). -/
+theorem x2w_tree_size_le_events (main : List Lang) (env : List (Bytes × ExpatRun)) (f : Nat) (xml : Bytes) (t : Tree)
+    (h : treeOfXml main env f xml = .ok t) : t.size ≤ 3 * expSize main env f xml + 1 := by
+  have h1 := x2w_tree_size_le main env f xml t h
+  have h2 := expDocs_le main env f xml
+  omega
+
+/-- … for a document that embeds no other document: `2 * evSize events + 1`. -/
+theorem x2w_tree_size_plain (main : List Lang) (env : List (Bytes × ExpatRun)) (f : Nat) (xml k : Bytes) (run : ExpatRun)
+    (t : Tree) (hfind : env.find? (fun p => p.1 == xml) = some (k, run))
+    (hq : queries main xml (subOf main env f) run.events {} = [])
+    (h : treeOfXml main env (f + 1) xml = .ok t) : t.size ≤ 2 * evSize run.events + 1 := by
+  have h1 := x2w_tree_size_le main env (f + 1) xml t h
+  obtain ⟨e1, e2⟩ := expSize_plain main env f xml k run hfind hq
+  omega
+
+/-- **Nesting depth**: the element nesting of the built tree (embedded documents entered) is at most
+    the number of start-element events, which is at most the size of the events. CDATA nodes and
+    text nodes are the only other levels: `Tree.depth ≤ Tree.size` below. -/
+theorem x2w_depth_le (main : List Lang) (env : List (Bytes × ExpatRun)) (f : Nat) (xml : Bytes) (t : Tree)
+    (h : treeOfXml main env f xml = .ok t) :
+    t.eltDepth ≤ expStarts main env f xml ∧ expStarts main env f xml ≤ expSize main env f xml :=
+  ⟨treeOfXml_eltDepth main env f xml t h, expStarts_le_expSize main env f xml⟩
+
+/-- **Recursion depth of the encoder** on ANY tree: `parse_node` recurses once per nesting level and
+    once per sibling (`Tree.walk`, the shape of the model's `encNodeG` / `encNodesW` recursion, which
+    is structural — the model spends no fuel on it; the only fuel of the encoder model is
+    `splitPass`'s, see `x2w_fuel_sufficient`). It is at least the nesting depth and less than the
+    tree size. The C call stack itself is outside the model (known finding "deep nesting"). -/
+theorem x2w_walk_le (t : Tree) : t.depth ≤ 1 + t.walk ∧ 1 + t.walk ≤ t.size :=
+  ⟨depth_le_walk _, walkIn_lt_size _⟩
+
+/-- … and the sibling walk alone reaches it: `k` empty text siblings need `k` frames. -/
+theorem x2w_walk_siblings (k : Nat) : Node.walkL (List.replicate k (.text [])) = k := walkL_replicate k
+
+/-- … for the trees the conversion builds: recursion depth linear in the events. -/
+theorem x2w_recursion_le (main : List Lang) (env : List (Bytes × ExpatRun)) (f : Nat) (xml : Bytes) (t : Tree)
+    (h : treeOfXml main env f xml = .ok t) :
+    1 + t.walk ≤ 2 * expSize main env f xml + expDocs main env f xml :=
+  Nat.le_trans (x2w_walk_le t).2 (x2w_tree_size_le main env f xml t h)
+
+/-- **The output is linear in the tree** — every option block, every well-named tree (`treeOk`; trees
+    built through the API included): at most ten octets per unit of tree size, plus for the document
+    and each embedded document its textual public identifier and 20 octets (header ≤ 14, OPAQUE
+    frame ≤ 6). Where the ten come from: an inline string costs 2 more than its octets, a string-table
+    reference ≤ 6, an opaque ≤ 6 + length, a tag or attribute token ≤ 3 with its page switch, a
+    literal ≤ 6 plus its table entry; a text cut up by `k` references is `k` octets shorter and `≤ 8 k`
+    longer; typed content (base64, integers, date-times) only shrinks, the SyncML `+xml` → `+wbxml`
+    label grows by two; the string table built before the walk holds only strings of the tree. -/
+theorem x2w_output_le (cfg : X2WCfg) (t : Tree) (ht : treeOk t = true) (bs : Bytes)
+    (h : treeToWbxml cfg t = .ok bs) : bs.length ≤ 10 * t.size + t.hdr docW :=
+  treeToWbxml_length cfg t ht bs h
+
+/-- The decomposition of a successful conversion. -/
+theorem x2w_ok_stages (main : List Lang) (cfg : X2WCfg) (env : List (Bytes × ExpatRun)) (xml bs : Bytes)
+    (h : xml2wbxml main cfg env xml = .ok bs) :
+    ∃ t, treeOfXml main env (env.length + 2) xml = .ok t ∧ treeToWbxml cfg t = .ok bs := by
+  unfold xml2wbxml at h
+  split at h
+  · cases h
+  · split at h
+    · cases h
+    · cases h
+    · rename_i t ht
+      refine ⟨t, ht, ?_⟩
+      split at h
+      · rename_i w hw
+        injection h with h
+        rw [hw, h]
+      · cases h
+
+/-- **Bounded**: for every table satisfying `MainOk`, every option tuple, every environment
+    satisfying `EnvWf` and every document, the WBXML output is at most
+    `20 * expSize + (pubMax main + 30) * expDocs` octets long (`pubMax`: longest XML public identifier
+    of the table; 32 for the regenerated tables). -/
+theorem x2w_bounded (main : List Lang) (cfg : X2WCfg) (env : List (Bytes × ExpatRun)) (xml bs : Bytes)
+    (hm : MainOk main) (he : EnvWf env) (h : xml2wbxml main cfg env xml = .ok bs) :
+    bs.length ≤ 20 * expSize main env (env.length + 2) xml +
+      (pubMax main + 30) * expDocs main env (env.length + 2) xml := by
+  obtain ⟨t, ht, hw⟩ := x2w_ok_stages main cfg env xml bs h
+  have hok : treeOk t = true := by
+    have := treeOfXml_ok main env hm he (env.length + 2) xml
+    rw [ht] at this
+    exact this
+  have h1 := x2w_output_le cfg t hok bs hw
+  have h2 := x2w_tree_size_le main env _ xml t ht
+  have h3 := treeOfXml_sizeW main env docW (pubMax main + 21)
+    (fun f x t' h' => docW_le main t'.lang (treeOfXml_lang_mem main env hm he f x t' h')) _ xml t ht
+  rw [tree_sizeW_eq] at h3
+  generalize expSize main env (env.length + 2) xml = E at *
+  generalize expDocs main env (env.length + 2) xml = Dn at *
+  have e1 : (pubMax main + 21) * Dn = pubMax main * Dn + 21 * Dn := Nat.add_mul _ _ _
+  have e2 : (pubMax main + 30) * Dn = pubMax main * Dn + 30 * Dn := Nat.add_mul _ _ _
+  omega
+
+/-- … as one linear function of the events: `A * expSize + B` with `A = pubMax main + 50`,
+    `B = pubMax main + 30`. -/
+theorem x2w_bounded_linear (main : List Lang) (cfg : X2WCfg) (env : List (Bytes × ExpatRun)) (xml bs : Bytes)
+    (hm : MainOk main) (he : EnvWf env) (h : xml2wbxml main cfg env xml = .ok bs) :
+    bs.length ≤ (pubMax main + 50) * expSize main env (env.length + 2) xml + (pubMax main + 30) := by
+  have h1 := x2w_bounded main cfg env xml bs hm he h
+  have h2 := expDocs_le main env (env.length + 2) xml
+  generalize expSize main env (env.length + 2) xml = E at *
+  generalize expDocs main env (env.length + 2) xml = Dn at *
+  have h3 : (pubMax main + 30) * Dn ≤ (pubMax main + 30) * (1 + E) := Nat.mul_le_mul_left _ h2
+  have e1 : (pubMax main + 30) * (1 + E) = (pubMax main + 30) + (pubMax main + 30) * E := by
+    rw [Nat.mul_add, Nat.mul_one]
+  have e2 : (pubMax main + 50) * E = (pubMax main + 30) * E + 20 * E := by
+    have : pubMax main + 50 = (pubMax main + 30) + 20 := by omega
+    rw [this, Nat.add_mul]
+  omega
+
+/-- … for a document that embeds no other document: `20 * evSize events + pubMax main + 30`. -/
+theorem x2w_bounded_plain (main : List Lang) (cfg : X2WCfg) (env : List (Bytes × ExpatRun)) (xml k bs : Bytes)
+    (run : ExpatRun) (hm : MainOk main) (he : EnvWf env)
+    (hfind : env.find? (fun p => p.1 == xml) = some (k, run))
+    (hq : queries main xml (subOf main env (env.length + 1)) run.events {} = [])
+    (h : xml2wbxml main cfg env xml = .ok bs) :
+    bs.length ≤ 20 * evSize run.events + pubMax main + 30 := by
+  have h1 := x2w_bounded main cfg env xml bs hm he h
+  obtain ⟨e1, e2⟩ := expSize_plain main env (env.length + 1) xml k run hfind hq
+  rw [e1, e2] at h1
+  omega
+
+theorem gen_pubMax : pubMax Gen.main = 32 := by decide +kernel
+
+/-- … with the tables of the tree under test: `20 * expSize + 62 * expDocs ≤ 82 * expSize + 62`. -/
+theorem x2w_bounded_gen (cfg : X2WCfg) (env : List (Bytes × ExpatRun)) (xml bs : Bytes) (he : EnvWf env)
+    (h : xml2wbxml Gen.main cfg env xml = .ok bs) :
+    bs.length ≤ 20 * expSize Gen.main env (env.length + 2) xml + 62 * expDocs Gen.main env (env.length + 2) xml ∧
+    bs.length ≤ 82 * expSize Gen.main env (env.length + 2) xml + 62 := by
+  have h1 := x2w_bounded Gen.main cfg env xml bs gen_main_ok he h
+  have h2 := x2w_bounded_linear Gen.main cfg env xml bs gen_main_ok he h
+  rw [gen_pubMax] at h1 h2
+  exact ⟨h1, h2⟩
+
+/-- **Linear space.** Every object the model of a successful conversion holds is linearly bounded by
+    the events: the tree (`t.size`), the encoder's call depth (`t.walk`), the final encoder state —
+    output buffer plus declared string table (`st.out.length + st.strtblLen`; the CDATA buffer is
+    part of the same potential during the walk, `encNodeG_pot`) — and the result. Embedded documents
+    are encoded by the same walk into their own output and table, bounded the same way
+    (`Node.hdr` carries their headers).
+
+    What this says about heap use: the C objects these model — `WBXMLTree` nodes with their name /
+    value / content buffers, the `WBXMLBuffer` output, the string-table list and its buffers — hold at
+    most this many octets of payload and this many objects. What it cannot say: the size of each C
+    object header, allocator overhead, and the growth policy of `WBXMLBuffer` reallocation (a buffer
+    may hold a constant factor more than its length), nor Expat's own memory; those are observed, not
+    proved, by the heap ladder of `tools/props/c02.py` (peak heap against input length over a geometric
+    ladder of document sizes). The C call stack is likewise outside the model (`x2w_walk_le` bounds
+    the logical recursion depth; the known finding on deep nesting stays). -/
+theorem x2w_linear_space (main : List Lang) (cfg : X2WCfg) (env : List (Bytes × ExpatRun)) (xml bs : Bytes)
+    (hm : MainOk main) (he : EnvWf env) (h : xml2wbxml main cfg env xml = .ok bs) :
+    ∃ t lang r st, treeOfXml main env (env.length + 2) xml = .ok t ∧ t.lang = some lang ∧ t.root = some r ∧
+      encNodeG (Wbxml.Lemmas.EncW.dcfgOf cfg lang) none true r (docStartW (Wbxml.Lemmas.EncW.dcfgOf cfg lang) r) = .ok st ∧
+      bs = (fillHeaderW (Wbxml.Lemmas.EncW.dcfgOf cfg lang) st).1 ++ st.out ∧
+      t.size ≤ 2 * expSize main env (env.length + 2) xml + expDocs main env (env.length + 2) xml ∧
+      1 + t.walk ≤ t.size ∧
+      st.out.length + st.strtblLen ≤ 10 * t.size + t.hdr docW ∧
+      bs.length ≤ 10 * t.size + t.hdr docW ∧
+      bs.length ≤ 20 * expSize main env (env.length + 2) xml +
+        (pubMax main + 30) * expDocs main env (env.length + 2) xml := by
+  obtain ⟨t, ht, hw⟩ := x2w_ok_stages main cfg env xml bs h
+  have hok : treeOk t = true := by
+    have := treeOfXml_ok main env hm he (env.length + 2) xml
+    rw [ht] at this
+    exact this
+  obtain ⟨lang, r, st, hl, hr, henc, hbs, hst⟩ := treeToWbxml_state cfg t hok bs hw
+  refine ⟨t, lang, r, st, ht, hl, hr, henc, hbs, x2w_tree_size_le main env _ xml t ht, (x2w_walk_le t).2, ?_,
+    x2w_output_le cfg t hok bs hw, x2w_bounded main cfg env xml bs hm he h⟩
+  have e1 : t.size = 1 + r.size := by
+    simp [Tree.size, Tree.sizeW, hr, Node.sizeW, Node.size]
+  have e2 : t.hdr docW = docW t.lang + r.hdr docW := by
+    simp [Tree.hdr, hr, Node.hdr]
+  omega
+
+/-! ### Non-vacuity of the bounds, and how far from tight they are -/
+
+/-- `<wml><card id="a"><p>hi</p></card></wml>` with its DOCTYPE, as Expat reports it. -/
+def wmlDoc : Bytes := b!"<wml><card id=\"a\"><p>hi</p></card></wml>"
+
+def wmlRun : ExpatRun :=
+  { ok := true,
+    events := [.doctype (some b!"http://www.wapforum.org/DTD/wml_1.1.xml") (some b!"-//WAPFORUM//DTD WML 1.1//EN"),
+               .startElt b!"wml" [] 0, .startElt b!"card" [(b!"id", b!"a")] 5, .startElt b!"p" [] 18,
+               .chars b!"hi", .endElt b!"p" 23, .endElt b!"card" 27, .endElt b!"wml" 34] }
+
+def wmlEnv : List (Bytes × ExpatRun) := [(wmlDoc, wmlRun)]
+
+theorem wmlRun_wf : WfDoc wmlRun.events :=
+  ⟨[.doctype (some b!"http://www.wapforum.org/DTD/wml_1.1.xml") (some b!"-//WAPFORUM//DTD WML 1.1//EN")],
+   b!"wml", [], 0, 34,
+   [.startElt b!"card" [(b!"id", b!"a")] 5, .startElt b!"p" [] 18, .chars b!"hi", .endElt b!"p" 23, .endElt b!"card" 27], [],
+   rfl, by decide, by decide, by decide,
+   Content.elt b!"card" [(b!"id", b!"a")] 5 27
+     (inner := [.startElt b!"p" [] 18, .chars b!"hi", .endElt b!"p" 23]) (rest := [])
+     (by decide) (by decide)
+     (Content.elt b!"p" [] 18 23 (inner := [.chars b!"hi"]) (rest := []) (by decide) (by decide)
+       (Content.chars _ Content.nil) Content.nil)
+     Content.nil,
+   by decide⟩
+
+theorem wmlEnv_wf : EnvWf wmlEnv := by
+  intro p hp
+  simp only [wmlEnv, List.mem_singleton] at hp
+  subst hp
+  intro _
+  exact wmlRun_wf
+
+/-- The WML run: 30 units of events, a tree of 19 units (element nesting 3, call depth 5),
+    19 octets of WBXML; the bound of `x2w_bounded_gen` is `20 * 30 + 62 = 662`. -/
+example : (match treeOfXml Gen.main wmlEnv 3 wmlDoc, xml2wbxml Gen.main {} wmlEnv wmlDoc with
+    | .ok t, .ok bs => (evSize wmlRun.events, expSize Gen.main wmlEnv 3 wmlDoc, expDocs Gen.main wmlEnv 3 wmlDoc,
+        expStarts Gen.main wmlEnv 3 wmlDoc, t.size, t.hdr docW, t.eltDepth, 1 + t.walk, bs.length) ==
+        (30, 30, 1, 3, 19, 48, 3, 5, 19)
+    | _, _ => false) = true := by decide +kernel
+
+example : ∃ bs, xml2wbxml Gen.main {} wmlEnv wmlDoc = .ok bs ∧
+    bs.length ≤ 20 * expSize Gen.main wmlEnv 3 wmlDoc + 62 * expDocs Gen.main wmlEnv 3 wmlDoc := by
+  cases h : xml2wbxml Gen.main {} wmlEnv wmlDoc with
+  | ok bs => exact ⟨bs, rfl, (x2w_bounded_gen {} wmlEnv wmlDoc bs wmlEnv_wf h).1⟩
+  | err e =>
+    have : (match xml2wbxml Gen.main {} wmlEnv wmlDoc with | .ok _ => true | _ => false) = true := by decide +kernel
+    rw [h] at this; cases this
+  | need d =>
+    have : (match xml2wbxml Gen.main {} wmlEnv wmlDoc with | .ok _ => true | _ => false) = true := by decide +kernel
+    rw [h] at this; cases this
+
+/-- A SyncML 1.2 message whose `Data` element holds a DevInf document; the conversion re-parses the
+    byte range of the `DevInf` element as a document of its own. -/
+def syDoc : Bytes :=
+  b!"<SyncML xmlns=\"SYNCML:SYNCML1.2\"><SyncBody><Results><Item><Data><DevInf xmlns=\"syncml:devinf\"><VerDTD>1.2</VerDTD><Man>x</Man></DevInf></Data></Item></Results></SyncBody></SyncML>"
+
+def devinfLang : Lang := (Gen.main.find? (fun l => l.id == 2202)).getD default
+
+/-- The embedded document the C code builds from bytes 64 … 126 of `syDoc`. -/
+def dvDoc : Bytes := embeddedDoc syDoc 64 126 false devinfLang
+
+def syN (s : Bytes) : Bytes := b!"SYNCML:SYNCML1.2|" ++ s
+def syD (s : Bytes) : Bytes := b!"syncml:devinf|" ++ s
+
+def syRun : ExpatRun :=
+  { ok := true,
+    events := [.startElt (syN b!"SyncML") [] 0, .startElt (syN b!"SyncBody") [] 33, .startElt (syN b!"Results") [] 43,
+               .startElt (syN b!"Item") [] 52, .startElt (syN b!"Data") [] 58,
+               .startElt (syD b!"DevInf") [] 64, .startElt (syD b!"VerDTD") [] 94, .chars b!"1.2",
+               .endElt (syD b!"VerDTD") 105, .startElt (syD b!"Man") [] 114, .chars b!"x", .endElt (syD b!"Man") 120,
+               .endElt (syD b!"DevInf") 126,
+               .endElt (syN b!"Data") 135, .endElt (syN b!"Item") 142, .endElt (syN b!"Results") 149,
+               .endElt (syN b!"SyncBody") 159, .endElt (syN b!"SyncML") 170] }
+
+def dvRun : ExpatRun :=
+  { ok := true,
+    events := [.doctype (some b!"http://www.openmobilealliance.org/tech/DTD/OMA-SyncML-Device_Information-DTD-1.2.dtd")
+                 (some b!"-//SYNCML//DTD DevInf 1.2//EN"),
+               .startElt (syD b!"DevInf") [] 140, .startElt (syD b!"VerDTD") [] 170, .chars b!"1.2",
+               .endElt (syD b!"VerDTD") 181, .startElt (syD b!"Man") [] 190, .chars b!"x", .endElt (syD b!"Man") 196,
+               .endElt (syD b!"DevInf") 202] }
+
+def syEnv : List (Bytes × ExpatRun) := [(syDoc, syRun), (dvDoc, dvRun)]
+
+theorem dvContent : Content [.startElt (syD b!"VerDTD") [] 170, .chars b!"1.2", .endElt (syD b!"VerDTD") 181,
+    .startElt (syD b!"Man") [] 190, .chars b!"x", .endElt (syD b!"Man") 196] :=
+  Content.elt (syD b!"VerDTD") [] 170 181 (inner := [.chars b!"1.2"])
+    (rest := [.startElt (syD b!"Man") [] 190, .chars b!"x", .endElt (syD b!"Man") 196])
+    (by decide) (by decide) (Content.chars _ Content.nil)
+    (Content.elt (syD b!"Man") [] 190 196 (inner := [.chars b!"x"]) (rest := []) (by decide) (by decide)
+      (Content.chars _ Content.nil) Content.nil)
+
+theorem dvRun_wf : WfDoc dvRun.events :=
+  ⟨[.doctype (some b!"http://www.openmobilealliance.org/tech/DTD/OMA-SyncML-Device_Information-DTD-1.2.dtd")
+      (some b!"-//SYNCML//DTD DevInf 1.2//EN")],
+   syD b!"DevInf", [], 140, 202, _, [], rfl, by decide, by decide, by decide, dvContent, by decide⟩
+
+theorem syRun_wf : WfDoc syRun.events :=
+  ⟨[], syN b!"SyncML", [], 0, 170, _, [], rfl, by decide, by decide, by decide,
+   Content.elt (syN b!"SyncBody") [] 33 159 (rest := []) (by decide) (by decide)
+     (Content.elt (syN b!"Results") [] 43 149 (rest := []) (by decide) (by decide)
+       (Content.elt (syN b!"Item") [] 52 142 (rest := []) (by decide) (by decide)
+         (Content.elt (syN b!"Data") [] 58 135 (rest := []) (by decide) (by decide)
+           (Content.elt (syD b!"DevInf") [] 64 126 (rest := []) (by decide) (by decide)
+             (Content.elt (syD b!"VerDTD") [] 94 105 (inner := [.chars b!"1.2"])
+               (rest := [.startElt (syD b!"Man") [] 114, .chars b!"x", .endElt (syD b!"Man") 120])
+               (by decide) (by decide) (Content.chars _ Content.nil)
+               (Content.elt (syD b!"Man") [] 114 120 (inner := [.chars b!"x"]) (rest := []) (by decide) (by decide)
+                 (Content.chars _ Content.nil) Content.nil))
+             Content.nil)
+           Content.nil)
+         Content.nil)
+       Content.nil)
+     Content.nil,
+   by decide⟩
+
+theorem syEnv_wf : EnvWf syEnv := by
+  intro p hp
+  simp only [syEnv, List.mem_cons, List.mem_nil_iff, or_false] at hp
+  rcases hp with rfl | rfl
+  · intro _; exact syRun_wf
+  · intro _; exact dvRun_wf
+
+/-- The SyncML run with its embedded DevInf run: 364 + 127 = 491 units of events in 2 documents,
+    11 start-element events; the tree has 60 units (element nesting 7 through the embedded document,
+    call depth 11), 36 octets of WBXML; the bound is `20 * 491 + 62 * 2`. The long namespace-prefixed
+    names Expat reports make the events much larger than the tree here. -/
+example : (match treeOfXml Gen.main syEnv 4 syDoc, xml2wbxml Gen.main {} syEnv syDoc with
+    | .ok t, .ok bs => (evSize syRun.events, evSize dvRun.events, expSize Gen.main syEnv 4 syDoc,
+        expDocs Gen.main syEnv 4 syDoc, expStarts Gen.main syEnv 4 syDoc, t.size, t.hdr docW, t.eltDepth, 1 + t.walk,
+        bs.length) == (364, 127, 491, 2, 11, 60, 98, 7, 11, 36)
+    | _, _ => false) = true := by decide +kernel
+
+example : ∃ bs, xml2wbxml Gen.main {} syEnv syDoc = .ok bs ∧
+    bs.length ≤ 20 * expSize Gen.main syEnv 4 syDoc + 62 * expDocs Gen.main syEnv 4 syDoc := by
+  cases h : xml2wbxml Gen.main {} syEnv syDoc with
+  | ok bs => exact ⟨bs, rfl, (x2w_bounded_gen {} syEnv syDoc bs syEnv_wf h).1⟩
+  | err e =>
+    have : (match xml2wbxml Gen.main {} syEnv syDoc with | .ok _ => true | _ => false) = true := by decide +kernel
+    rw [h] at this; cases this
+  | need d =>
+    have : (match xml2wbxml Gen.main {} syEnv syDoc with | .ok _ => true | _ => false) = true := by decide +kernel
+    rw [h] at this; cases this
+
+/-- **The factor is really larger than 1.** `<si><x>xxxxxxxx</x></si>`: the unknown element `x` is a
+    literal tag, its name enters the string table, and every `x` of the text becomes a two-octet
+    table reference: 19 units of events, a tree of 15 units, 27 octets of WBXML (the 8 octets of
+    text alone cost 16). With a table of more than 127 octets each reference takes three octets, so
+    no constant below 3 per octet of text can be proved; the proof's 8 + 2 is not tight. -/
+def txDoc : Bytes := b!"<si><x>xxxxxxxx</x></si>"
+
+def txRun : ExpatRun :=
+  { ok := true,
+    events := [.startElt b!"si" [] 0, .startElt b!"x" [] 4, .chars b!"xxxxxxxx", .endElt b!"x" 15, .endElt b!"si" 19] }
+
+theorem x2w_output_exceeds_input :
+    (match treeOfXml Gen.main [(txDoc, txRun)] 3 txDoc, xml2wbxml Gen.main {} [(txDoc, txRun)] txDoc with
+     | .ok t, .ok bs => (evSize txRun.events, t.size, bs.length) == (19, 15, 27) &&
+         bs == [0x03, 0x05, 0x6A, 0x02, 0x78, 0x00, 0x45, 0x44, 0x00,
+                0x83, 0x00, 0x83, 0x00, 0x83, 0x00, 0x83, 0x00, 0x83, 0x00, 0x83, 0x00, 0x83, 0x00, 0x83, 0x00,
+                0x01, 0x01]
+     | _, _ => false) = true := by decide +kernel
 
 end Wbxml.Props.C02
